@@ -70,6 +70,18 @@ func funcName(fd *ast.FuncDecl) string {
 	return fd.Name.Name
 }
 
+// callString renders nested calls in full: f(g(h)), a.B("x", y).
+func callString(e ast.Expr) string {
+	if call, ok := e.(*ast.CallExpr); ok {
+		var args []string
+		for _, a := range call.Args {
+			args = append(args, callString(a))
+		}
+		return callString(call.Fun) + "(" + strings.Join(args, ",") + ")"
+	}
+	return exprString(e)
+}
+
 func exprString(e ast.Expr) string {
 	switch x := e.(type) {
 	case *ast.Ident:
@@ -307,7 +319,7 @@ func condString(e ast.Expr) string {
 	case *ast.ParenExpr:
 		return "(" + condString(x.X) + ")"
 	}
-	return exprString(e)
+	return callString(e)
 }
 
 // handlerOrder: in api.GetChallenge, positions of the ownership comparison and of ch.Validate,
@@ -384,6 +396,197 @@ func handlerOrder(fset *token.FileSet, files []*ast.File) string {
 	return fmt.Sprintf("%s;validate(%s);jwk=%s;jwk-assignments=%d;ch=%s;ch.AuthorizationID=%s;azID=%s", order, valArgs, jwkFrom, reassigned, chFrom, azFrom, azidFrom)
 }
 
+// routeFacts: in api.route, every r.MethodFunc registration whose handler chain mentions `handler`,
+// and the definitions of the middleware compositions it is built from.
+func routeFacts(files []*ast.File, handler string) string {
+	fd := findFunc(files, "route")
+	if fd == nil {
+		return "unrecognised:no-route"
+	}
+	defs := map[string]string{}
+	var regs []string
+	ast.Inspect(fd.Body, func(n ast.Node) bool {
+		switch x := n.(type) {
+		case *ast.AssignStmt:
+			if len(x.Lhs) == 1 && len(x.Rhs) == 1 {
+				if fl, ok := x.Rhs[0].(*ast.FuncLit); ok && len(fl.Body.List) == 1 {
+					if ret, ok := fl.Body.List[0].(*ast.ReturnStmt); ok && len(ret.Results) == 1 {
+						defs[exprString(x.Lhs[0])] = callString(ret.Results[0])
+					}
+				}
+			}
+		case *ast.CallExpr:
+			if exprString(x.Fun) == "r.MethodFunc" && len(x.Args) == 3 {
+				chain := callString(x.Args[2])
+				if strings.Contains(chain, handler+")") {
+					regs = append(regs, strings.Trim(exprString(x.Args[0]), "\"")+" "+callString(x.Args[1])+" "+chain)
+				}
+			}
+		}
+		return true
+	})
+	if len(regs) == 0 {
+		return "unrecognised:not-registered"
+	}
+	out := strings.Join(regs, ";")
+	for _, name := range []string{"extractPayloadByKid", "extractPayloadByJWK", "extractPayloadByKidOrJWK", "validatingMiddleware"} {
+		d, ok := defs[name]
+		if !ok {
+			d = "unrecognised"
+		}
+		out += ";" + name + "=" + d
+	}
+	return out
+}
+
+// switchTable: in function fn, the first `switch` whose cases each append one value: case label -> appended value.
+func switchTable(files []*ast.File, fn string) string {
+	fd := findFunc(files, fn)
+	if fd == nil {
+		return "unrecognised:no-" + fn
+	}
+	var items []string
+	found := false
+	ast.Inspect(fd.Body, func(n ast.Node) bool {
+		sw, ok := n.(*ast.SwitchStmt)
+		if !ok || found {
+			return true
+		}
+		found = true
+		items = append(items, "switch:"+callString(sw.Tag))
+		for _, st := range sw.Body.List {
+			cc := st.(*ast.CaseClause)
+			label := "default"
+			if len(cc.List) > 0 {
+				var ls []string
+				for _, e := range cc.List {
+					ls = append(ls, exprString(e))
+				}
+				label = strings.Join(ls, "|")
+			}
+			val := "?"
+			if len(cc.Body) == 1 {
+				if as, ok := cc.Body[0].(*ast.AssignStmt); ok && len(as.Rhs) == 1 {
+					if call, ok := as.Rhs[0].(*ast.CallExpr); ok && exprString(call.Fun) == "append" && len(call.Args) == 2 {
+						val = exprString(call.Args[1])
+					}
+				}
+			} else if len(cc.Body) == 0 {
+				val = "-"
+			}
+			items = append(items, label+">"+val)
+		}
+		return false
+	})
+	if !found {
+		return "unrecognised:no-switch"
+	}
+	return strings.Join(items, ",")
+}
+
+// clientShape: acme/client.go - every key: value of the literals in NewClient (nested literals are
+// flattened in source order) and the expression each Client method returns.
+func clientShape(files []*ast.File) string {
+	fd := findFunc(files, "NewClient")
+	if fd == nil {
+		return "unrecognised:no-NewClient"
+	}
+	var kv []string
+	ast.Inspect(fd.Body, func(n ast.Node) bool {
+		if e, ok := n.(*ast.KeyValueExpr); ok {
+			if _, nested := e.Value.(*ast.CompositeLit); nested {
+				kv = append(kv, exprString(e.Key)+"{")
+			} else if u, isU := e.Value.(*ast.UnaryExpr); isU {
+				if _, lit := u.X.(*ast.CompositeLit); lit {
+					kv = append(kv, exprString(e.Key)+"{")
+				} else {
+					kv = append(kv, exprString(e.Key)+"="+condString(e.Value))
+				}
+			} else {
+				kv = append(kv, exprString(e.Key)+"="+condString(e.Value))
+			}
+		}
+		return true
+	})
+	out := "NewClient:" + strings.Join(kv, ",")
+	for _, m := range []string{"client.Get", "client.LookupTxt", "client.TLSDial"} {
+		md := findFunc(files, m)
+		ret := "unrecognised"
+		if md != nil && len(md.Body.List) == 1 {
+			if r, ok := md.Body.List[0].(*ast.ReturnStmt); ok && len(r.Results) == 1 {
+				ret = callString(r.Results[0])
+			}
+		}
+		out += ";" + m + "=" + ret
+	}
+	// the client handed to the validators when the context has none
+	if md := findFunc(files, "MustClientFromContext"); md != nil {
+		var rets []string
+		ast.Inspect(md.Body, func(n ast.Node) bool {
+			if r, ok := n.(*ast.ReturnStmt); ok && len(r.Results) == 1 {
+				rets = append(rets, callString(r.Results[0]))
+			}
+			return true
+		})
+		out += ";MustClientFromContext=" + strings.Join(rets, "|")
+	}
+	return out
+}
+
+// typedConsts: NAME=value for every string constant declared with the given type name.
+func typedConsts(files []*ast.File, typ string) string {
+	var items []string
+	for _, f := range files {
+		for _, d := range f.Decls {
+			gd, ok := d.(*ast.GenDecl)
+			if !ok || gd.Tok != token.CONST {
+				continue
+			}
+			for _, sp := range gd.Specs {
+				vs := sp.(*ast.ValueSpec)
+				if vs.Type == nil || exprString(vs.Type) != typ || len(vs.Names) != len(vs.Values) {
+					continue
+				}
+				for i, n := range vs.Names {
+					items = append(items, n.Name+"="+strings.Trim(exprString(vs.Values[i]), "\""))
+				}
+			}
+		}
+	}
+	if len(items) == 0 {
+		return "unrecognised:no-consts-" + typ
+	}
+	return strings.Join(items, ",")
+}
+
+// enabledDefaults: the default list literal and the comparison of ACME.IsChallengeEnabled / IsAttestationFormatEnabled.
+func enabledDefaults(files []*ast.File, fn string) string {
+	fd := findFunc(files, fn)
+	if fd == nil {
+		return "unrecognised:no-" + fn
+	}
+	def, cmp, guard := "?", "?", "?"
+	ast.Inspect(fd.Body, func(n ast.Node) bool {
+		switch x := n.(type) {
+		case *ast.AssignStmt:
+			if len(x.Rhs) == 1 {
+				if cl, ok := x.Rhs[0].(*ast.CompositeLit); ok && def == "?" {
+					def = strings.Join(litElems(cl), "+")
+				}
+			}
+		case *ast.IfStmt:
+			c := condString(x.Cond)
+			if strings.HasPrefix(c, "len(") {
+				guard = c
+			} else if strings.Contains(c, "EqualFold") || strings.Contains(c, "==") {
+				cmp = callString(x.Cond)
+			}
+		}
+		return true
+	})
+	return "default=" + def + ";override-if=" + guard + ";match=" + cmp
+}
+
 func main() {
 	out := flag.String("out", "", "output file")
 	flag.Int("n", 0, "unused")
@@ -407,6 +610,20 @@ func main() {
 	o.Case("op=src fact=dispatch", dispatch(acmeFiles))
 	o.Case("op=src fact=types", types(apiFiles))
 	o.Case("op=src fact=handler-order", handlerOrder(fset, apiFiles))
+	_, provFiles := parseDir(filepath.Join(repo(), "authority", "provisioner"))
+	_, authFiles := parseDir(filepath.Join(repo(), "authority"))
+	o.Case("op=src fact=client-shape", clientShape(acmeFiles))
+	o.Case("op=src fact=route-challenge", routeFacts(apiFiles, "GetChallenge"))
+	o.Case("op=src fact=route-authz", routeFacts(apiFiles, "GetAuthorization"))
+	o.Case("op=src fact=conv-challenges-to-linkedca", switchTable(authFiles, "challengesToLinkedca"))
+	o.Case("op=src fact=conv-challenges-to-certificates", switchTable(authFiles, "challengesToCertificates"))
+	o.Case("op=src fact=conv-formats-to-linkedca", switchTable(authFiles, "attestationFormatsToLinkedca"))
+	o.Case("op=src fact=conv-formats-to-certificates", switchTable(authFiles, "attestationFormatsToCertificates"))
+	o.Case("op=src fact=const-prov-challenges", typedConsts(provFiles, "ACMEChallenge"))
+	o.Case("op=src fact=const-prov-formats", typedConsts(provFiles, "ACMEAttestationFormat"))
+	o.Case("op=src fact=const-acme-challenges", typedConsts(acmeFiles, "ChallengeType"))
+	o.Case("op=src fact=enabled-challenges", enabledDefaults(provFiles, "ACME.IsChallengeEnabled"))
+	o.Case("op=src fact=enabled-formats", enabledDefaults(provFiles, "ACME.IsAttestationFormatEnabled"))
 	o.Case("op=src fact=api-status-writers", statusWriters(apiFiles))
 	o.Case("op=src fact=api-authz-updaters", callers(apiFiles, "UpdateAuthorization"))
 }
